@@ -115,7 +115,11 @@ func c03(c *Ctx) {
 	}
 	rootVar := func(i int) string { return fmt.Sprintf("$.v%d", i) }
 	elemVar := func(i int) string { return fmt.Sprintf("@.v%d", i) }
-	for _, t := range trees {
+	for ti, t := range trees {
+		if len(c.Cases) > 150000 {
+			c.RunEvalCases() // in batches: the thorough tier enumerates millions of cases
+		}
+		extras := !c.Thorough() || ti%8 == 0 // the re-spelled operands: every tree in the quick tier, a seeded eighth in the thorough one
 		for asg := 0; asg < 1<<nvars; asg++ {
 			kv := []any{}
 			for v := 0; v < nvars; v++ {
@@ -138,7 +142,7 @@ func c03(c *Ctx) {
 			c.AddEval("$.arr"+body+".Count()", doc3, "filter-body", false, nontriv)
 			// operands that are boolean by their DATA rather than by their last step: First / Last / Index
 			// of an array of booleans, a comparison, a double negation — one spelling per leaf, at random
-			if nontriv {
+			if nontriv && extras {
 				spell := func(root string) func(i int) string {
 					return func(i int) string {
 						switch c.Rng.Intn(6) {
